@@ -226,10 +226,11 @@ Definition dup_sorted (l : list node) : bool :=
   if forallb sort_comparable l then adjacent_dup (sort l) else dup_linear l.
 
 (* open addressing with linear probing; table as a list of optional (node, hash) *)
+(* load factor and first size are the literals of the source (Gen/Common.v) *)
 Definition table_size (count : Z) : Z :=
-  let want := Z.quot (count * 10) 7 in
+  let want := Z.quot (count * HASH_LOAD_NUM) HASH_LOAD_DEN in
   (fix grow (fuel : nat) (size : Z) : Z :=
-     match fuel with O => size | S f => if size <? want then grow f (size * 2) else size end) 64%nat 16.
+     match fuel with O => size | S f => if size <? want then grow f (size * 2) else size end) 64%nat HASH_INIT_SIZE.
 
 Fixpoint probe (fuel : nat) (tbl : list (option (node * Z))) (size idx : Z) (elem : node) (h : Z)
   : option (bool * Z) :=         (* Some (true,_) = duplicate; Some (false, slot) = empty slot; None = table full *)
